@@ -19,9 +19,11 @@ def combine_scale(ns, we):
 
 
 def scan_angles(offset, points):
-    """mod(linspace(-offset, 180-offset, points), 360) for points >= 2."""
+    """mod(linspace(-offset, 180-offset, points), 360); a single requested angle is the start of the half circle."""
     start = 0.0 - float(offset)
     stop = 180.0 - float(offset)
+    if points == 1:
+        return [start % 360.0]
     out = []
     for i in range(points):
         x = stop if i == points - 1 else start + i * ((stop - start) / (points - 1))
@@ -97,3 +99,29 @@ def constant_shift(before, after):
         return False, 0.0, float('inf')
     d = [float(a) - float(b) for a, b in zip(after, before)]
     return True, math.fsum(d) / len(d), max(d) - min(d)
+
+
+def window_superset(n, dt, start, end):
+    """Index range [lo, hi) that certainly contains every sample of the time window [start, end] (one sample of slack on
+    either side, whatever the rounding convention) - used for LOCAL tolerance scales only."""
+    lo = max(0, int(math.floor(float(start) / dt)) - 1)
+    hi = min(n, int(math.floor(float(end) / dt)) + 3)
+    return lo, max(hi, min(n, lo + 1))
+
+
+def shift_deviation(before, after, rtol):
+    """Constancy of after-before judged sample by sample: the reference shift is read at the sample of smallest
+    magnitude (where the subtraction is most accurate); returns (ok, shift, worst excess index, deviation, allowed)."""
+    if len(before) != len(after) or len(before) == 0:
+        return False, 0.0, None, float('inf'), 0.0
+    j0 = min(range(len(before)), key=lambda j: abs(float(before[j])))
+    shift = float(after[j0]) - float(before[j0])
+    worst = (True, None, 0.0, 0.0)
+    excess = -1.0
+    for j in range(len(before)):
+        dev = abs((float(after[j]) - float(before[j])) - shift)
+        allowed = rtol * (abs(float(before[j])) + abs(float(before[j0])) + abs(shift))
+        if dev - allowed > excess:
+            excess = dev - allowed
+            worst = (dev <= allowed, j, dev, allowed)
+    return worst[0], shift, worst[1], worst[2], worst[3]
